@@ -130,7 +130,9 @@ func (e *env) request() (*stack.Resp, []byte, string) {
 	body := []byte(fmt.Sprintf(`{"model":"m1","messages":[{"role":"user","content":"nonce-%d-%d"}]}`, report.Shard, nonce))
 	n := fmt.Sprintf("n%d-%d", report.Shard, nonce)
 	r := stack.Do(e.o.Addr, &stack.Req{Method: "POST", Target: "/olla/proxy/v1/chat/completions?x=" + n, Body: body,
-		Headers: [][2]string{{"Content-Type", "application/json"}, {"X-Nonce", n}}})
+		// the client sits behind another proxy: the hop headers it sends must reach the serving backend extended by
+		// exactly one hop, however many candidates were tried before
+		Headers: [][2]string{{"Content-Type", "application/json"}, {"X-Nonce", n}, {"Via", "1.1 edge-proxy"}, {"X-Forwarded-For", "203.0.113.7"}}})
 	return r, body, n
 }
 
@@ -382,6 +384,19 @@ func (e *env) cell(as []string, prefix string) {
 		reqs := e.bes[served].Requests()
 		if len(reqs) == 1 {
 			q := reqs[0]
+			hops := func(name string) (l []string) {
+				for _, v := range q.HeaderValues(name) {
+					for _, p := range strings.Split(v, ",") {
+						if p = strings.TrimSpace(p); p != "" {
+							l = append(l, p)
+						}
+					}
+				}
+				return l
+			}
+			if via, xff := hops("Via"), hops("X-Forwarded-For"); len(via) != 2 || via[0] != "1.1 edge-proxy" || len(xff) != 2 || xff[0] != "203.0.113.7" {
+				res.Violate("failover-request-differs", wit(map[string]any{"what": "hop-headers"}), ctxs+fmt.Sprintf("\nclient sent Via: 1.1 edge-proxy and X-Forwarded-For: 203.0.113.7; the serving backend got Via %q, X-Forwarded-For %q (one hop is added per request, not per attempt)", via, xff), rp)
+			}
 			if q.Method != "POST" || q.Path() != "/v1/chat/completions" || q.Query() != "x="+n || !bytes.Equal(q.Body, body) || q.Header("X-Nonce") != n || q.Header("Content-Type") != "application/json" {
 				res.Violate("failover-request-differs", wit(nil), ctxs+fmt.Sprintf("\nserving backend got %s %s body=%q X-Nonce=%q", q.Method, q.Target, q.Body, q.Header("X-Nonce")), rp)
 			}
